@@ -17,6 +17,6 @@ def generators(tier, seed):
 
 MANIFEST = dict(
     design_ref="DESIGN.md §5 C10",
-    text="TLC enumerates token soups (all sequences of length <= 3 over 35 tokens), mutations of valid queries, the statement's malformation list, uninterpretable literals and option-like argument vectors; each is executed with a wall-clock bound and Judge_C10 accepts a recorded run only if it terminated, did not panic, exited 0/1/2 and - for the listed rejections - exited 2 with a diagnostic and no output.",
+    text="TLC enumerates token soups (all sequences of length <= 3 over 35 tokens), mutations of valid queries, the statement's malformation list, uninterpretable literals and option-like argument vectors; each is executed with a wall-clock bound and Judge_C10 accepts a recorded run only if it terminated, did not panic, exited 0/1/2 and - for the listed rejections - exited 2 with a diagnostic and no output. Also: trees with FIFOs, sockets and dangling links under queries that read content (must terminate), arguments that are not valid UTF-8, `~` roots, limits beyond the number of groups.",
     note="Trusted: TLC, the 3 s bound, panic detection by status 101 / 'panicked at' / death by signal. Soups of length <= 3 (thorough adds double mutations); longer soups only by mutation of valid queries.",
     technique="TLC enumeration of command lines + replay with a time bound + TLA+ judge")
